@@ -306,7 +306,7 @@ func serviceRandom(fl *drv.Flags, rng *rand.Rand, w *chain.TraceWriter) {
 				owner := st["owner"].(chain.M)
 				if btc && rng.Intn(4) == 0 {
 					// the keeper's owner-wide withdrawal, only while the owner's tally is what its
-					// providers earned (after finding F29 it would pay out other people's money)
+					// providers earned (a wrong tally — finding F35 — would pay out other people's money)
 					o := pick(provs)
 					if tallyConsistent(st, o) {
 						pending = append(pending, svcEvent("ModWithdrawAll", o))
